@@ -165,6 +165,7 @@ type cellSource struct {
 	fallback uint32 // menu size for unannounced reads
 	maxMenu  uint32
 	rot      func(n uint32) uint32
+	bigRaw   bool
 	bounds   []uint32
 	outs     []uint32
 	uncal    bool
@@ -186,15 +187,36 @@ var rawMenu = func() []uint32 {
 	return append(m, 0xffffffff, 0x80000001, 0x55555555, 0xaaaaaaaa, 0x0000ffff, 0xffff0000)
 }()
 
+// rawMenuBig adds 4096 words of a fixed linear congruential sequence. It is
+// used by the single-deviation coverage explorations: a coordinate value is
+// reported unreachable only if none of these 4141 raw words (with every other
+// draw at its default) produces it - for a correct implementation, in which
+// each coordinate value has probability >= 1/Length under a uniform raw word,
+// that cannot happen in practice (< 1e-13), so correct code is not alarmed;
+// it is a stated finite word set, not a proof over all 2^32 raw values.
+var rawMenuBig = func() []uint32 {
+	m := append([]uint32{}, rawMenu...)
+	x := uint32(0x9e3779b9)
+	for i := 0; i < 4096; i++ {
+		x = x*1664525 + 1013904223
+		m = append(m, x^(x>>15))
+	}
+	return m
+}()
+
 func (s *cellSource) NextWord(bound uint32, announced, cont bool) (uint32, error) {
 	if s.ch.PastCut() {
 		s.t.AbortNow()
 	}
 	if !announced {
-		k := s.ch.Choose(len(rawMenu))
-		s.bounds = append(s.bounds, uint32(len(rawMenu)))
+		menu := rawMenu
+		if s.bigRaw {
+			menu = rawMenuBig
+		}
+		k := s.ch.Choose(len(menu))
+		s.bounds = append(s.bounds, uint32(len(menu)))
 		s.outs = append(s.outs, uint32(k))
-		return rawMenu[k], nil
+		return menu[k], nil
 	}
 	n := bound
 	if cont {
@@ -245,6 +267,8 @@ type CellOpt struct {
 	// outcome (k + Rot(n)) mod n, so that the default choice 0 can stand
 	// for any wanted default outcome.
 	Rot func(n uint32) uint32
+	// BigRaw selects the 4141-word menu for raw reads (coverage explorations).
+	BigRaw bool
 }
 
 // CellStats summarises an exploration.
@@ -265,7 +289,7 @@ func exploreCell(g func() (*spg.Password, error), opt CellOpt, visit func(l *Lea
 	saved := curTape()
 	defer install(saved)
 	for ch.Begin() {
-		src := &cellSource{ch: ch, fallback: opt.Fallback, maxMenu: opt.MaxMenu, rot: opt.Rot}
+		src := &cellSource{ch: ch, fallback: opt.Fallback, maxMenu: opt.MaxMenu, rot: opt.Rot, bigRaw: opt.BigRaw}
 		t := tape.New(src)
 		src.t = t
 		t.LogOn = opt.Log
